@@ -512,7 +512,7 @@ fn read_next_case(file_len: usize) {
 	}
 	assert!(log.appending.read().is_some() == has_appending, "C12.O2 the appending file is never touched by the reader");
 	if has_appending { assert!(log.appending.read().as_ref().map(|a| a.id) == Some(9), "C12.O2 appending unchanged"); }
-	if file_len > 0 { kani::cover!(matches!(r, Ok(Some(_)))); } else { kani::cover!(matches!(r, Ok(None)) && queued); }
+	kani::cover!(if file_len > 0 { matches!(r, Ok(Some(_))) } else { matches!(r, Ok(None)) && queued });
 	std::mem::forget(r);
 	std::mem::forget(log);
 }
